@@ -36,7 +36,7 @@ m = {
         "name": "icecheck",
         "path": "/verif/icecheck",
         "serves_properties": [c["property_id"] for c in checks],
-        "kind_free_text": "repository-specific static analyser (go/packages + go/types; own CFG with labelled edges; must-fact dataflow; decision-table extraction by predicate enumeration; call graph with field-sensitive function values; effect summaries; resource typestate); thorough tier adds checker self-validation by in-memory source overlays",
+        "kind_free_text": "repository-specific static analyser (go/packages + go/types; own CFG with labelled edges; must-fact dataflow; decision-table extraction by predicate enumeration; call graph with field-sensitive function values; effect summaries; resource typestate); load-time normalisation and helper inlining; thorough tier adds extra build configurations, checker self-validation by in-memory source overlays, replay of stored seeded and behaviour-preserving changes, and whole-program behaviour-preserving probes",
     }],
     "checks": checks,
     "not_applicable": na,
